@@ -1012,6 +1012,40 @@ func ruleA18(c *Ctx) {
 			}
 		}
 	}
+	// the prefix sizing of IN/OUT recognises an immediate port the same way: OperandTypes() widens
+	// an immediate to the size class of the other operand, so a test for one class (imm8) misses
+	// the port next to AX or EAX
+	if gp, gpp := c.L.FuncDecl("pkg/asmdb", "(*InstructionDB).GetPrefixSize"); gp != nil {
+		sizers := []*ast.FuncDecl{gp}
+		ast.Inspect(gp.Body, func(x ast.Node) bool {
+			if call, ok := x.(*ast.CallExpr); ok {
+				if fn, ok := calleeOf(gpp.TypesInfo, call).(*types.Func); ok && fn.Pkg() == gpp.Types {
+					if hd := funcDeclOf(gpp, fn); hd != nil && hd.Body != nil && hd.Recv == nil {
+						sizers = append(sizers, hd)
+					}
+				}
+			}
+			return true
+		})
+		ns := 0
+		for _, body := range sizers {
+			ast.Inspect(body.Body, func(x ast.Node) bool {
+				be, ok := x.(*ast.BinaryExpr)
+				if !ok || (be.Op != token.EQL && be.Op != token.NEQ) {
+					return true
+				}
+				for _, side := range []ast.Expr{be.X, be.Y} {
+					if sv, isConst := constStr(gpp.TypesInfo, side); isConst && len(sv) > 3 && strings.HasPrefix(sv, "imm") && sv[3] >= '0' && sv[3] <= '9' {
+						ns++
+						c.fail("A18", fmt.Sprintf("%s|operand type compared with %s#%d", body.Name.Name, sv, ns), c.L.Pos(be.Pos()),
+							"the prefix sizing singles out the immediate size class "+sv+": an immediate is classified by the size of the other operand (the port of OUT 0x21,AX is imm16), so the test misses it and pass 1 counts no 66h where the emitter writes one")
+					}
+				}
+				return true
+			})
+		}
+		c.ok("A18", "GetPrefixSize|no immediate size class singled out", c.L.Pos(gp.Pos()), fmt.Sprintf("%d functions scanned", len(sizers)))
+	}
 	c.check(n >= 3, "A18", "matchOperandsWithAccumulator|register-class comparisons found", c.L.Pos(fd.Pos()), fmt.Sprintf("%d comparisons of queryType with constants", n))
 }
 
